@@ -12,6 +12,7 @@ use ::whirlpool::state::{AdaptiveFeeConstants, AdaptiveFeeInfo, AdaptiveFeeVaria
 
 pub fn register(v: &mut Vec<Box<dyn Family>>) {
     v.push(Box::new(Afm));
+    v.push(Box::new(TFeeFam));
 }
 
 fn anchor_err_name(e: anchor_lang::error::Error) -> String {
@@ -185,5 +186,126 @@ impl Afm {
         out += &format!(" | {} {} {} {} {}", { nv.last_reference_update_timestamp }, { nv.last_major_swap_timestamp }, { nv.volatility_reference }, { nv.tick_group_index_reference }, { nv.volatility_accumulator });
         ctx.tag("ok");
         out
+    }
+}
+
+// ------------------------------------------------------------------------------------------------
+// C16: the transfer-fee calculators of both implementations on a real Token-2022 mint account
+//   tfee <bps> <maxFee> <newerFromFuture 0|1> <amount> <inc 0|1>
+// ------------------------------------------------------------------------------------------------
+pub struct TFeeFam;
+impl Family for TFeeFam {
+    fn name(&self) -> &'static str {
+        "tfee"
+    }
+    fn gen(&self, r: &mut Rng, _idx: u64) -> String {
+        let bps = match r.below(5) {
+            0 => r.pick(&[0u64, 1, 2, 9998, 9999, 10000]),
+            1 => r.pick(&[50u64, 100, 300, 999, 1000, 2500, 5000, 7500]),
+            _ => r.below(10001),
+        };
+        let max = match r.below(5) {
+            0 => r.pick(&[0u64, 1, 2, u64::MAX, u64::MAX - 1, u64::MAX / 2]),
+            1 => r.pick(&[5000u64, 1_000_000, 1_000_000_000]),
+            _ => r.u64_amount(),
+        };
+        let amt = match r.below(5) {
+            0 => r.pick(&[0u64, 1, 2, 9999, 10000, 10001, u64::MAX, u64::MAX - 1]),
+            1 if bps > 0 => (max as u128 * 10000 / bps as u128).min(u64::MAX as u128) as u64 + r.pick(&[0u64, 1, 2]) - 1.min(max),
+            _ => r.u64_amount(),
+        };
+        format!("tfee {} {} {} {} {}", bps, max, b(r.chance(1, 2)), amt, b(r.chance(1, 2)))
+    }
+    fn run(&self, line: &str, ctx: &mut Ctx) -> String {
+        use crate::fam_access::RawAccount;
+        use crate::fixture::{mint_data, FeeCfg};
+        use ::whirlpool::pinocchio::verif_export as pino;
+        use anchor_lang::prelude::{AccountInfo, InterfaceAccount, Pubkey};
+        crate::svm::install();
+        crate::svm::set_clock(1000, 100);
+        let t = toks(line);
+        let (bps, max, fut, amt, inc) = (t[1].parse::<u64>().unwrap(), p64(t[2]), pb(t[3]), p64(t[4]), pb(t[5]));
+        let cfg = FeeCfg { bps: bps as u16, max_fee: max, newer_from_future: if fut { Some((((bps + 77) % 10001) as u16, max / 3 + 1)) } else { None } };
+        let data = mint_data(true, 6, Some(cfg), 100);
+        // Anchor
+        let key = Pubkey::new_from_array([5u8; 32]);
+        let owner = anchor_spl::token_2022::ID;
+        let mut lam = 1u64;
+        let mut d = data.clone();
+        let info = AccountInfo::new(&key, false, false, &mut lam, &mut d[..], &owner, false, 0);
+        let a: Result<(u64, u64), String> = std::panic::catch_unwind(std::panic::AssertUnwindSafe(|| {
+            let mint = InterfaceAccount::<anchor_spl::token_interface::Mint>::try_from(&info).map_err(|e| format!("{:?}", e))?;
+            if inc {
+                ::whirlpool::util::calculate_transfer_fee_included_amount(&mint, amt).map(|x| (x.amount, x.transfer_fee)).map_err(anchor_err_name)
+            } else {
+                ::whirlpool::util::calculate_transfer_fee_excluded_amount(&mint, amt).map(|x| (x.amount, x.transfer_fee)).map_err(anchor_err_name)
+            }
+        }))
+        .unwrap_or_else(|_| Err("Panic".to_string()));
+        // Pinocchio
+        const N: usize = 300;
+        let mut buf = [0u8; N];
+        buf[..data.len()].copy_from_slice(&data);
+        let mut raw = RawAccount::<N>::new([5u8; 32], owner.to_bytes(), false, false, buf);
+        raw.data_len = data.len() as u64;
+        let pinfo = raw.info();
+        let p: Result<(u64, u64), String> = std::panic::catch_unwind(std::panic::AssertUnwindSafe(|| {
+            if inc {
+                pino::util_token::pino_calculate_transfer_fee_included_amount(&pinfo, amt).map(|x| (x.amount, x.transfer_fee))
+            } else {
+                pino::util_token::pino_calculate_transfer_fee_excluded_amount(&pinfo, amt).map(|x| (x.amount, x.transfer_fee))
+            }
+            .map_err(|e| match e {
+                pino::UnifiedError::Anchor(a) => anchor_err_name(a),
+                pino::UnifiedError::Pinocchio(p) => format!("{:?}", p),
+            })
+        }))
+        .unwrap_or_else(|_| Err("Panic".to_string()));
+        if a != p {
+            ctx.viol(format!("C16/C12 transfer-fee calculator: Anchor gives {:?}, Pinocchio gives {:?}", a, p));
+        }
+        // exact oracle
+        let fee = |y: u128| -> u128 { if bps == 0 || y == 0 { 0 } else { ((y * bps as u128 + 9999) / 10000).min(max as u128) } };
+        match &a {
+            Ok((v, f)) => {
+                if inc {
+                    let (v, f) = (*v as u128, *f as u128);
+                    if v - fee(v) != amt as u128 || f != fee(v) {
+                        ctx.viol(format!("C16 included amount {} (fee {}) of {}: its fee-reduced value is {}", v, f, amt, v - fee(v)));
+                    }
+                    if v > 0 && (v - 1) - fee(v - 1) >= amt as u128 && amt > 0 {
+                        ctx.viol(format!("C16 included amount {} of {} is not the smallest: {} already reaches it", v, amt, v - 1));
+                    }
+                } else if *v as u128 + *f as u128 != amt as u128 || *f as u128 != fee(amt as u128) {
+                    ctx.viol(format!("C16 excluded amount {} + fee {} != {}", v, f, amt));
+                }
+                ctx.tag(if inc { "included-ok" } else { "excluded-ok" });
+                ctx.nontrivial(line);
+            }
+            Err(e) => {
+                // failure only when the least amount does not fit u64
+                if inc {
+                    let (mut lo, mut hi) = (amt as u128, amt as u128 + max as u128);
+                    while lo < hi {
+                        let mid = (lo + hi) / 2;
+                        if mid - fee(mid) >= amt as u128 {
+                            hi = mid;
+                        } else {
+                            lo = mid + 1;
+                        }
+                    }
+                    if lo <= u64::MAX as u128 {
+                        ctx.viol(format!("C16 included amount of {} fails ({}) although {} fits u64", amt, e, lo));
+                    }
+                } else {
+                    ctx.viol(format!("C16 excluded amount of {} fails ({})", amt, e));
+                }
+                ctx.tag("err");
+            }
+        }
+        match a {
+            Ok((v, f)) => format!("ok {} {}", v, f),
+            Err(e) => format!("err {}", e),
+        }
     }
 }
